@@ -571,4 +571,12 @@ def rule_conjunction(ctx: Ctx):
     c05.rule_wrapper(ctx, rule="C08.conj")
 
 
-RULES = [rule_regex, rule_optable, rule_build, rule_fast, rule_when, rule_fresh, rule_identity, rule_conjunction]
+def rule_evaluated_each_time(ctx: Ctx):
+    """C08.fresh: a guard is evaluated at every evaluation, with current values: what the executor stores for a guard is the
+    built callable itself, not a memo around it."""
+    from . import c01
+
+    c01.rule_stored_callable(ctx, rule="C08.fresh")
+
+
+RULES = [rule_regex, rule_optable, rule_build, rule_fast, rule_when, rule_fresh, rule_identity, rule_conjunction, rule_evaluated_each_time]
